@@ -110,6 +110,11 @@ pub fn run(c: &Case) -> Verdict {
     }
     // ---- equality is semantic ---------------------------------------------------------------
     ensure!((a == b) == (ma == mb), "eq", "{} == {} is {} but as functions they are {}", ma.show(), mb.show(), a == b, if ma == mb { "equal" } else { "different" });
+    // ---- the same object as both operands: a & a is a -------------------------------------------
+    for form in 0..4u8 {
+        let r = lib!("Cube & with the same object on both sides", cube_and(&a, &a, form));
+        ensure!(CubeM::of(&r) == ma, "and:alias", "a & a [form {}] with the same object a = {} on both sides gives {}", form, ma.show(), CubeM::of(&r).show());
+    }
     // ---- conjunction, four forms --------------------------------------------------------------
     let mab = ma.and(&mb);
     for form in 0..4u8 {
